@@ -13,7 +13,8 @@ the global `Structure` are objects of the heap (`ref name`); `type(name, bases, 
 
 The subset (general idioms, nothing keyed to today's text):
   * `if` / `raise` / `return` / doc strings; conditions with and/or/not, (chained) comparisons, `is None`,
-    `in` / `not in`, isinstance against builtin classes and against typedpy's metaclass, truthiness;
+    `in` / `not in`, isinstance against builtin classes and against typedpy's metaclass, `hasattr` with a
+    constant name, truthiness;
   * values: constants, names, string constants of consts.py, tuple / list / set displays, f-strings,
     conditional expressions, `getattr` with a constant name, attribute reads, subscription, `len`,
     `[e for x in it if c]`, calls of the other translated functions (positional, *args, keywords),
@@ -42,7 +43,7 @@ SRC_STRUCT = os.path.join(STRUCT_DIR, "structures.py")
 SRC_REUSE = os.path.join(STRUCT_DIR, "structures_reuse.py")
 SRC_CONSTS = os.path.join(STRUCT_DIR, "consts.py")
 
-BUILTINS_USED = {"getattr", "len", "type", "isinstance"}
+BUILTINS_USED = {"getattr", "hasattr", "len", "type", "isinstance"}
 OBJECT_CLASSES = {"StructMeta"}          # isinstance(x, C): answered by the heap
 GLOBAL_OBJECTS = {"Structure"}           # module-level objects referred to by name
 
@@ -400,6 +401,11 @@ class TrD:
             for t in reversed(terms[:-1]):
                 out = "(py_or (%s) (fun _ => %s))" % (t, out)
             return self.seq(b, out)
+        if isinstance(e, ast.Call) and isinstance(e.func, ast.Name) and e.func.id == "hasattr" \
+                and "hasattr" not in self.st.env and "hasattr" not in self.module_names \
+                and len(e.args) == 2 and not e.keywords:
+            b, a = self.val(e.args[0])
+            return self.seq(b, 'obj_hasattr h %s (s2p "%s")' % (a, self.attr_name(e.args[1])))
         b, a = self.operand(e, container_ok=False)
         return self.seq(b, "Ok (py_truthy %s)" % a)
 
